@@ -11,7 +11,8 @@ From Coq Require Import ZArith List Bool.
 From PV.Model Require Import Codec.
 From PV.Proofs Require Import CodecProofs.
 From PV.Model Require VolDesc.
-From PV.Proofs Require VolDescProofs VolDescPairProofs.
+From PV.Proofs Require VolDescProofs VolDescPairProofs SpaceGenProofs.
+From PV.Gen Require GenObj.
 Import ListNotations.
 Local Open Scope Z_scope.
 
@@ -85,4 +86,10 @@ Theorem C05_space_accounting_not_additive_refuted :
   exists s l a b, 0 < l /\ 0 <= a /\ 0 <= b /\
     remove_from_space_size (add_to_space_size (add_to_space_size s l a) l b) l (a + b) <> s.
 Proof. exact VolDescPairProofs.space_accounting_not_additive_refuted. Qed.
+
+(* the counters of the model ARE the translated source (regenerated on every run) *)
+Theorem C05_space_counters_are_the_source : forall s l n,
+  GenObj.vd_add_to_space_size s l n = add_to_space_size s l n /\
+  GenObj.vd_remove_from_space_size s l n = remove_from_space_size s l n.
+Proof. intros s l n. split; [apply SpaceGenProofs.add_to_space_size_is_the_source | apply SpaceGenProofs.remove_from_space_size_is_the_source]. Qed.
 End VolDescStatements.
